@@ -51,7 +51,8 @@ def verify_one(key):
         obs.append({'fn': o.fn, 'kind': o.kind, 'line': o.line, 'text': o.text, 'verdict': o.verdict,
                     'backend': o.backend, 'secs': round(o.secs, 4), 'model': o.model,
                     'trace': o.trace if o.verdict != 'unsat' else None, 'name': o.name})
-    stats = {k: [smt.STATS[k][0] - before[k][0], smt.STATS[k][1] - before[k][1]] for k in smt.STATS}
+    stats = {k: [smt.STATS[k][0] - before.get(k, [0, 0.0])[0], smt.STATS[k][1] - before.get(k, [0, 0.0])[1]]
+             for k in smt.STATS}
     return {'key': key, 'status': r['status'], 'reason': r['reason'], 'binding': r['binding'],
             'sha256': r.get('sha256'), 'file': r.get('file'), 'secs': round(r['secs'], 3),
             'paths': r['paths'], 'exits': r['exits'], 'unmodelled': r['unmodelled'],
@@ -391,4 +392,14 @@ def selfcheck():
 
 
 if __name__ == '__main__':
-    sys.exit(main())
+    try:
+        rc = main()
+    except SystemExit:
+        raise
+    except BaseException:
+        # an internal error of the checker is never a verdict about the code: exit 3, no VIOLATION line
+        import traceback
+        traceback.print_exc()
+        print('CRASH checker internal error (exit 3; not a verdict)')
+        sys.exit(3)
+    sys.exit(rc)
